@@ -275,7 +275,7 @@ def r13f(F):
 			nxt.sort(key=lambda x: fu.line_of(x[0]))
 			rb, re_ = nxt[0]
 			n += 1
-			calls = {c for c in lv['calls'] if not c.endswith('::from') and not c.endswith('::into')}
+			calls = {c for c in lv['calls'] if not c.endswith(('::from', '::into', '::as_bytes', '::as_slice', '::as_str', '::deref', '::as_ref', '::borrow', '::try_from', '::try_into', '::unwrap', '::expect'))}
 			bad_calls = sorted(c for c in calls if c not in _LEN_CALLS and not c.endswith('::len'))
 			rf = expr_leaves(re_)['fields']
 			common = rf & lv['fields']
